@@ -826,6 +826,11 @@ class Executor:
                 if v[0] == "unit":
                     self.clear_prefix(st, dst.key())      # opaque constant reinterpreted as an aggregate: leaves unconstrained
                     return
+            if m.group(3) == "Transmute" and isinstance(v, Val) and sort_of_type(m.group(2).strip()) is None:
+                # scalar reinterpreted as a single-field wrapper (niche-typed Nanoseconds(u32), NonZero..): its only field
+                self.clear_prefix(st, dst.key())
+                st.store[dst.key() + ".0"] = v
+                return
             if m.group(3) not in ("IntToInt",):
                 raise Untranslatable("cast kind " + m.group(3) + " of " + rhs[:80])
             put(self.cast(v, m.group(2)))
@@ -896,9 +901,7 @@ class Executor:
             parts = split_top(m.group(1))
             for i, p in enumerate(parts):
                 v = self.operand(st, fn, p, frame)
-                if not isinstance(v, Val):
-                    raise Untranslatable("array of aggregates")
-                st.store[dst.key() + "[%d]" % i] = v
+                self.put_at(st, dst.key() + "[%d]" % i, v)       # scalars, and aggregates / references element by element
             return
         m = re.match(r"^([\w:]+?)(?:::<.*?>)?(?:::(\w+))?\((.*)\)$", rhs)
         if m:
